@@ -1,5 +1,9 @@
 import Driver.Common
 import ClarabelModel.Cones.Composite
+import ClarabelModel.Cones.Exp
+import ClarabelModel.Cones.Pow
+import ClarabelModel.Cones.GenPow
+import ClarabelModel.Cones.PsdStep
 
 open Clarabel Driver
 
@@ -85,6 +89,151 @@ def coneFns (kv : KV) : Option (List (Composite.ConeFn Float)) := do
           pure (rz.1, rs.1)⟩ :: tl)
       | _ => none
   go (ks.toList.zip ds.toList) 0 0
+
+
+/-- fuel for the nonsymmetric cones' `backtrack_search` (exhaustion is reported) -/
+def btFuel : Nat := 200000
+
+def v3? (kv : KV) (k : String) : Option (V3 Float) := do
+  let a ← kv.floats k
+  Nonsym.v3ofArray? a
+
+/-- `γ` with its LAPACK status flag (`0` = `eigvals` failed) -/
+def gammaOf (ok : Nat) (g : Float) : Option Float := if ok == 0 then none else some g
+
+/-- one eigenvalue entry per cone from the flat encoding (`neig[k]` entries for cone `k`;
+`eok[k] = 0` marks a LAPACK failure); non-PSD cones get `none` (ignored by the model) -/
+def eigEntries (ks : Array Nat) (neig eok : Array Nat) (eigs : Array Float) :
+    List (Option (Array Float)) :=
+  let rec go : List (Nat × Nat × Nat) → Nat → List (Option (Array Float))
+    | [], _ => []
+    | (k, n, ok) :: rest, start =>
+      (if k == 4 && ok != 0 then some (eigs.extract start (start + n)) else none) :: go rest (start + n)
+  go (ks.toList.zip (neig.toList.zip eok.toList)) 0
+
+/-- per-cone step-length functions of a `composite.step_length_full` request: every cone runs
+its own model (`Exp/Pow/GenPow.stepLength` with the model's feasibility predicates; PSD with
+the recorded LAPACK eigenvalues) -/
+def coneFnsFull (kv : KV) : Option (List (Composite.ConeFn Float)) := do
+  let ks ← kv.nats "kinds"
+  let ds ← kv.nats "dims"
+  let z ← kv.floats "z"
+  let s ← kv.floats "s"
+  let dz ← kv.floats "dz"
+  let dsv ← kv.floats "ds"
+  let bstep ← kv.float "bstep"
+  let bamin ← kv.float "bamin"
+  let alphas ← kv.floats "alphas"
+  let gpal ← kv.floats "gpal"
+  let gpd1 ← kv.nats "gpd1"
+  let pg ← kv.floats "psdg"
+  let pok ← kv.nats "psdok"
+  if ks.size ≠ ds.size then none
+  let rec go : List (Nat × Nat) → Nat → Nat → Nat → Nat → Nat → Option (List (Composite.ConeFn Float))
+    | [], _, _, _, _, _ => some []
+    | (k, n) :: rest, start, ia, ig, iga, ip => do
+      let len := if k == 4 then PsdIndex.triangularNumber n else n
+      let zi := z.extract start (start + len)
+      let si := s.extract start (start + len)
+      let dzi := dz.extract start (start + len)
+      let dsi := dsv.extract start (start + len)
+      if zi.size ≠ len ∨ si.size ≠ len ∨ dzi.size ≠ len ∨ dsi.size ≠ len then none
+      match k with
+      | 0 => do
+        let tl ← go rest (start + len) ia ig iga ip
+        pure (⟨true, fun a => pure (Zero.stepLength a)⟩ :: tl)
+      | 1 => do
+        let tl ← go rest (start + len) ia ig iga ip
+        pure (⟨true, fun a => Nonneg.stepLength dzi dsi zi si a⟩ :: tl)
+      | 2 => do
+        let tl ← go rest (start + len) ia ig iga ip
+        pure (⟨true, fun a => Soc.stepLength dzi dsi zi si a⟩ :: tl)
+      | 3 => do
+        let al ← alphas[ia]?
+        let z3 ← Nonsym.v3ofArray? zi
+        let s3 ← Nonsym.v3ofArray? si
+        let dz3 ← Nonsym.v3ofArray? dzi
+        let ds3 ← Nonsym.v3ofArray? dsi
+        let tl ← go rest (start + len) (ia + 1) ig iga ip
+        pure (⟨false, fun a =>
+          if al < 0 then Exp.stepLength dz3 ds3 z3 s3 bstep bamin a btFuel
+          else Pow.stepLength al dz3 ds3 z3 s3 bstep bamin a btFuel⟩ :: tl)
+      | 4 => do
+        let gz ← pg[2 * ip]?
+        let gs ← pg[2 * ip + 1]?
+        let okz ← pok[2 * ip]?
+        let oks ← pok[2 * ip + 1]?
+        let tl ← go rest (start + len) ia ig iga (ip + 1)
+        pure (⟨true, fun a => pure (PsdStep.stepLengthPsdComponent dzi (gammaOf okz gz) a,
+                                    PsdStep.stepLengthPsdComponent dsi (gammaOf oks gs) a)⟩ :: tl)
+      | 5 => do
+        let d1 ← gpd1[ig]?
+        let al := gpal.extract iga (iga + d1)
+        if al.size ≠ d1 then none
+        let tl ← go rest (start + len) ia (ig + 1) (iga + d1) ip
+        pure (⟨false, fun a => GenPow.stepLength al dzi dsi zi si bstep bamin a btFuel⟩ :: tl)
+      | _ => none
+  go (ks.toList.zip ds.toList) 0 0 0 0 0
+
+def eigsOf (kv : KV) : Option (List (Option (Array Float))) := do
+  let ks ← kv.nats "kinds"
+  let neig ← kv.nats "neig"
+  let eok ← kv.nats "eok"
+  let e ← kv.floats "eigs"
+  if neig.size ≠ ks.size ∨ eok.size ≠ ks.size then none
+  pure (eigEntries ks neig eok e)
+
+def handle2 (ch : String) (kv : KV) : String :=
+  match ch with
+  | "nonsym.step_length" =>
+    match v3? kv "z", v3? kv "s", v3? kv "dz", v3? kv "ds", kv.float "bstep", kv.float "bamin",
+          kv.float "amax", kv.float "alpha" with
+    | some z, some s, some dz, some ds, some step, some amin, some amax, some al =>
+      fmtM fpair (if al < 0 then Exp.stepLength dz ds z s step amin amax btFuel
+                  else Pow.stepLength al dz ds z s step amin amax btFuel)
+    | _, _, _, _, _, _, _, _ => "bad-request"
+  | "genpow.step_length" =>
+    match kv.floats "al", kv.floats "z", kv.floats "s", kv.floats "dz", kv.floats "ds",
+          kv.float "bstep", kv.float "bamin", kv.float "amax" with
+    | some al, some z, some s, some dz, some ds, some step, some amin, some amax =>
+      fmtM fpair (GenPow.stepLength al dz ds z s step amin amax btFuel)
+    | _, _, _, _, _, _, _, _ => "bad-request"
+  | "psd.step_length_component" =>
+    match kv.floats "d", kv.float "gamma", kv.nat "gok", kv.float "amax" with
+    | some d, some g, some ok, some a =>
+      s!"a={fmtFloat (PsdStep.stepLengthPsdComponent d (gammaOf ok g) a)}"
+    | _, _, _, _ => "bad-request"
+  | "psd.scaled_direction" =>
+    match kv.nat "n", kv.floats "d", kv.floats "lisqrt" with
+    | some n, some d, some l => fv "m" (PsdStep.scaledDirData n d l)
+    | _, _, _ => "bad-request"
+  | "psd.margins" =>
+    match kv.floats "z", kv.floats "eigs", kv.nat "eok" with
+    | some z, some e, some ok =>
+      fmtM (fmtMargins maxValue) (PsdStep.margins z (if ok == 0 then none else some e))
+    | _, _, _ => "bad-request"
+  | "psd.step_length" =>
+    match kv.nat "n", kv.floats "R", kv.floats "Rinv", kv.floats "dz", kv.floats "ds",
+          kv.float "gz", kv.float "gs", kv.nat "gzok", kv.nat "gsok", kv.float "amax", kv.nat "usok" with
+    | some n, some R, some Ri, some dz, some ds, some gz, some gs, some okz, some oks, some a, some us =>
+      if us == 0 then "update_scaling=false"
+      else
+        let K : PsdTri.Cone Float := ⟨n, #[], #[], R, Ri, #[]⟩
+        fmtM fpair (PsdStep.stepLength K dz ds (gammaOf okz gz) (gammaOf oks gs) a)
+    | _, _, _, _, _, _, _, _, _, _, _ => "bad-request"
+  | "psdcomp.margins" =>
+    match specs kv, kv.floats "z", eigsOf kv with
+    | some sp, some z, some e => fmtM (fmtMargins maxValue) (Composite.marginsE sp z e)
+    | _, _, _ => "bad-request"
+  | "psdcomp.shift_to_cone_interior" =>
+    match specs kv, kv.floats "z", kv.nat "primal", eigsOf kv with
+    | some sp, some z, some p, some e => fmtM (fv "z") (Composite.shiftToConeInteriorE sp z (p != 0) e)
+    | _, _, _, _ => "bad-request"
+  | "composite.step_length_full" =>
+    match coneFnsFull kv, kv.float "msf", kv.float "amax" with
+    | some fns, some msf, some a => fmtM fpair (Composite.stepLength fns msf a)
+    | _, _, _ => "bad-request"
+  | _ => "unknown-channel"
 
 def handle (ch : String) (kv : KV) : String :=
   match ch with
@@ -182,7 +331,7 @@ def handle (ch : String) (kv : KV) : String :=
     match specs kv, kv.floats "z", kv.nat "primal" with
     | some sp, some z, some p => fmtM (fv "z") (Composite.shiftToConeInterior sp z (p != 0))
     | _, _, _ => "bad-request"
-  | _ => "unknown-channel"
+  | _ => handle2 ch kv
 
 end DriverC15
 
